@@ -106,6 +106,26 @@ CLAIMS = {
         "as a subprocess against the scripted server: stdout, exit status, directory before/after, commands seen by the server.",
    note="The message of an ftp_exception and the help text are wild cards in the stdout comparison; the real file system is observed, "
         "the model knows plain names only (no sub-directories, no symlinks).", ref="DESIGN.md section 7 C20"),
+ "C11": dict(
+   text="Theorems over the TLS layer of the model, for every server behaviour and handshake outcome: connecting with a TLS context "
+        "writes at most `AUTH TLS` in clear text and it is the first command; after it comes the handshake or - on refusal / failure - "
+        "nothing (no credentials, the call reports it); every later call of the session writes only inside TLS; the data handshake "
+        "precedes every payload event and follows the non-negative reply to the transfer command; a failed data handshake or a stream "
+        "that ends in an error is reported, never delivered. Correspondence: the unmodified client over real sockets against an "
+        "in-process FTPS server (own CA, TLS 1.2/1.3): raw bytes of every send()/sendmsg() parsed as TLS records, what the server "
+        "received in plaintext, planted secrets searched in all captured bytes; refusals and failures injected at AUTH TLS, the control "
+        "handshake (garbage, unknown CA x verify_peer/none), PBSZ/PROT, login, and truncation after 0..20000 bytes.",
+   note="partial: that boost::asio::ssl::stream / OpenSSL encrypt what is written through an established SSL and map a missing "
+        "close-notify to stream_truncated (not eof) is trusted and only exercised; the theorems are about which channel state each write "
+        "happens in.", ref="DESIGN.md section 7 C11"),
+ "C18": dict(
+   text="Theorems: every data-connection handshake of every call offers the control session exactly when the context was created "
+        "with resumption; at most one handshake per call and none without a TLS context; the setting is stable. Correspondence: "
+        "interposed SSL_new / SSL_set_session (context identity, offered session = the control connection's current session) and the "
+        "server's SSL_session_reused() per data connection, TLS 1.2/1.3 x four methods x server requiring reuse, 2-6 consecutive "
+        "transfers, reconnects; found and repaired F11 (TLS 1.3 session usable only once).",
+   note="partial: what OpenSSL does with the offered session (tickets, resumption) is trusted and observed on the server side; the "
+        "model has a single context, so context identity is checked on the implementation only.", ref="DESIGN.md section 7 C18"),
 }
 PENDING = "check not built yet (work in progress; see DESIGN.md section 12)"
 
